@@ -2,6 +2,7 @@ import UrcuVerif.RcuList.SeqInv
 /-! Invariant of the TSO machine of `RcuList/Model.lean` (helper lemmas; statements in `Props/C18.lean`). -/
 set_option linter.unusedVariables false
 set_option linter.unusedSimpArgs false
+set_option linter.unusedSimpArgs false
 namespace UrcuVerif.RcuList
 
 inductive Reach (c : Cfg) : State → Prop
@@ -67,5 +68,287 @@ structure Inv (c : Cfg) (s : State) : Prop where
 
 theorem inv_init (c : Cfg) : Inv c init := by
   constructor <;> simp [init, Link, sinv_init]
+
+
+set_option hygiene false in
+macro "easy_tac" : tactic => `(tactic| (
+  have k4 := h.clk_cs
+  have k5 := h.clk_gp
+  have k6 := h.tickT_lt
+  have k7 := h.gp_cs
+  have k9 := h.pos_cs
+  have k10 := h.t0_le
+  have hdl := h.sm.dead_le
+  have hhl := h.sm.head_live
+  have hdat := h.sm.data_ok
+  simp only [Seq.pub] at hdat
+  constructor
+  case su => first | exact h.su | assumption
+  case sm => first | exact h.sm | assumption
+  case link => first | exact h.link | assumption
+  case clk_cs => have hc := h.clk_cs; simp [upd, Seq.pub] at *; (first | grind | (intro j; split <;> simp [*]))
+  case clk_gp => have hc := h.clk_gp; simp [upd, Seq.pub] at *; (first | grind | (intro j; split <;> simp [*]))
+  case tickT_lt => have hc := h.tickT_lt; simp [upd, Seq.pub] at *; (first | grind | (intro j; split <;> simp [*]))
+  case gp_cs => have hc := h.gp_cs; simp [upd, Seq.pub] at *; (first | grind | (intro j; split <;> simp [*]))
+  case freed_ok => have hc := h.freed_ok; simp [upd, Seq.pub] at *; (first | grind | (intro j; split <;> simp [*]))
+  case pos_cs => have hc := h.pos_cs; simp [upd, Seq.pub] at *; (first | grind | (intro j; split <;> simp [*]))
+  case t0_le => have hc := h.t0_le; simp [upd, Seq.pub] at *; (first | grind | (intro j; split <;> simp [*]))
+  case r_tick => have hc := h.r_tick; simp [upd, Seq.pub] at *; (first | grind | (intro j; split <;> simp [*]))
+  case r_pos => have hc := h.r_pos; simp [upd, Seq.pub] at *; (first | grind | (intro j; split <;> simp [*]))
+  case r_vis => have hc := h.r_vis; simp [upd, Seq.pub] at *; (first | grind | (intro j; split <;> simp [*]))
+  case r_before => have hc := h.r_before; simp [upd, Seq.pub] at *; (first | grind | (intro j; split <;> simp [*]))
+  case r_in => have hc := h.r_in; simp [upd, Seq.pub] at *; (first | grind | (intro j; split <;> simp [*]))
+  case r_ord => have hc := h.r_ord; simp [upd, Seq.pub] at *; (first | grind | (intro j; split <;> simp [*]))
+  case r_res => have hc := h.r_res; simp [upd, Seq.pub] at *; (first | grind | (intro j; split <;> simp [*]))
+  case r_fin => have hc := h.r_fin; simp [upd, Seq.pub] at *; (first | grind | (intro j; split <;> simp [*]))
+  case r_init => have hc := h.r_init; simp [upd, Seq.pub] at *; (first | grind | (intro j; split <;> simp [*]))
+  case r_free => have hc := h.r_free; simp [upd, Seq.pub] at *; (first | grind | (intro j; split <;> simp [*]))))
+
+theorem inv_rLock (c : Cfg) {s s' : State} (h : Inv c s) (i : Nat) (st : step c s (.rLock i) = some s') : Inv c s' := by
+  simp only [step] at st; split at st <;> simp at st; subst st
+  easy_tac
+
+theorem inv_rUnlock (c : Cfg) {s s' : State} (h : Inv c s) (i : Nat) (st : step c s (.rUnlock i) = some s') : Inv c s' := by
+  simp only [step] at st; split at st <;> simp at st; subst st
+  easy_tac
+
+theorem inv_rStart (c : Cfg) {s s' : State} (h : Inv c s) (i : Nat) (st : step c s (.rStart i) = some s') : Inv c s' := by
+  simp only [step] at st; split at st <;> simp at st; subst st
+  easy_tac
+
+/-- a reader positioned on `p` inside a section never sits on a freed node, and `p` is initialised -/
+theorem Inv.pos_safe {c : Cfg} {s : State} (h : Inv c s) {i p : Nat} (hp : s.pos i = some p) :
+    s.freed p = false ∧ (p ≠ 0 → s.m.data p = true) := by
+  have k8 := h.freed_ok p
+  have k9 := h.pos_cs i p hp
+  have k12 := h.r_pos i p hp
+  have hdl := h.sm.dead_le p
+  have hhl := h.sm.head_live
+  have hdat := h.sm.data_ok p
+  simp only [Seq.pub] at hdat
+  cases hcs : s.cs i with
+  | none => simp [hcs] at k9
+  | some b =>
+    have k11 := h.r_tick i p b hp hcs (s.m.deadS p)
+    constructor
+    · cases hf : s.freed p with
+      | false => rfl
+      | true =>
+        have := k8 hf
+        have := this.2 i b hcs
+        by_cases hp0 : p = 0
+        · subst hp0; grind
+        · grind
+    · grind
+
+theorem inv_rRead (c : Cfg) {s s' : State} (h : Inv c s) (i : Nat) (st : step c s (.rRead i) = some s') : Inv c s' := by
+  simp only [step] at st; split at st <;> (try split at st) <;> simp at st; subst st
+  next p hpos hp0 =>
+  have hsafe := h.pos_safe hpos
+  easy_tac
+
+theorem inv_gpStart (c : Cfg) {s s' : State} (h : Inv c s) (st : step c s .gpStart = some s') : Inv c s' := by
+  simp only [step] at st; split at st <;> simp at st; subst st
+  easy_tac
+
+theorem inv_gpEnd (c : Cfg) {s s' : State} (h : Inv c s) (st : step c s .gpEnd = some s') : Inv c s' := by
+  simp only [step] at st; split at st <;> (try split at st) <;> simp at st; subst st
+  easy_tac
+
+theorem inv_free (c : Cfg) {s s' : State} (h : Inv c s) (x : Nat) (st : step c s (.free x) = some s') : Inv c s' := by
+  simp only [step] at st; split at st <;> simp at st; subst st
+  easy_tac
+
+theorem inv_u (c : Cfg) (hb : c.bug = .none) {s s' : State} (h : Inv c s) (l : ULabel)
+    (st : step c s (.u l) = some s') : Inv c s' := by
+  simp only [step] at st; split at st <;> simp at st; subst st
+  next u' hu =>
+  have hsu := sinv_ustep c hb h.su hu
+  have hlink := link_snoc c h.link hu
+  easy_tac
+
+theorem pairwise_congr {α} {R S : α → α → Prop} {l : List α} (hp : l.Pairwise R)
+    (himp : ∀ a b, a ∈ l → b ∈ l → R a b → S a b) : l.Pairwise S := by
+  induction l with
+  | nil => exact List.Pairwise.nil
+  | cons x xs ih =>
+    rw [List.pairwise_cons] at hp ⊢
+    exact ⟨fun b hb => himp x b (by simp) (by simp [hb]) (hp.1 b hb),
+           ih hp.2 (fun a b ha hb => himp a b (by simp [ha]) (by simp [hb]))⟩
+
+theorem inv_flush (c : Cfg) (hb : c.bug = .none) {s s' : State} (h : Inv c s)
+    (st : step c s .flush = some s') : Inv c s' := by
+  simp only [step] at st; split at st <;> (try split at st) <;> simp at st; subst st
+  next e rest hbuf _ m' hm =>
+  have hsm := sinv_ustep c hb h.sm hm
+  have M := mono_ustep c hb h.sm hm
+  have hlink : Link c m' rest s.u := by
+    have := h.link; rw [hbuf] at this
+    obtain ⟨_, x, hx, hl⟩ := this
+    rw [hm] at hx; cases hx; exact hl
+  have k4 := h.clk_cs
+  have k6 := h.tickT_lt
+  have k10 := h.t0_le
+  have hdl := h.sm.dead_le
+  have hdl' := hsm.dead_le
+  have mt := M.tick
+  have mdo := M.dead_old
+  have mdn := M.dead_new
+  have mpm := M.pub_mono
+  have mln := M.live_new
+  have mps := M.pubS_old
+  have mbo := M.bef_old
+  simp only [Seq.pub] at mpm mln mps mbo
+  constructor
+  case su => exact h.su
+  case sm => exact hsm
+  case link => exact hlink
+  case clk_cs => simp; grind
+  case clk_gp => have := h.clk_gp; simp; grind
+  case tickT_lt => simp [upd]; grind
+  case gp_cs => exact h.gp_cs
+  case freed_ok => have := h.freed_ok; simp [upd]; grind
+  case pos_cs => exact h.pos_cs
+  case t0_le => simp; grind
+  case r_tick => have := h.r_tick; simp [upd]; grind
+  case r_pos => have := h.r_pos; simp; grind
+  case r_vis => have := h.r_vis; simp [Seq.pub] at *; grind
+  case r_before => have := h.r_before; have := h.r_vis; have := h.r_pos; have := h.sm.head_live; simp [Seq.pub] at *; grind
+  case r_in => exact h.r_in
+  case r_ord =>
+    intro i
+    have hv := h.r_vis i
+    simp only [Seq.pub] at hv
+    exact pairwise_congr (h.r_ord i) (fun a b ha hb hab => by rw [mbo a b (hv a ha).2.1 (hv b hb).2.1]; exact hab)
+  case r_res => have := h.r_res; have := h.r_pos; have hpl := hsm.pub_le; simp [Seq.pub] at *; grind
+  case r_fin => have := h.r_fin; have hpl := hsm.pub_le; simp [Seq.pub] at *; grind
+  case r_init => exact h.r_init
+  case r_free => exact h.r_free
+
+theorem inv_rNext (c : Cfg) {s s' : State} (h : Inv c s) (i : Nat)
+    (st : step c s (.rNext i) = some s') : Inv c s' := by
+  simp only [step] at st; split at st <;> (try split at st) <;> simp at st <;> subst st
+  · -- the traversal is back at the head: complete
+    next p hpos hq =>
+    have hsafe := (h.pos_safe hpos).1
+    have k4 := h.clk_cs
+    have k5 := h.clk_gp
+    have k6 := h.tickT_lt
+    have k9 := h.pos_cs
+    have k10 := h.t0_le
+    constructor
+    case su => exact h.su
+    case sm => exact h.sm
+    case link => exact h.link
+    case clk_cs => simp; grind
+    case clk_gp => simp; grind
+    case tickT_lt => simp; grind
+    case gp_cs => exact h.gp_cs
+    case freed_ok => exact h.freed_ok
+    case pos_cs => simp [upd]; grind
+    case t0_le => exact h.t0_le
+    case r_tick => have := h.r_tick; simp [upd]; grind
+    case r_pos => have := h.r_pos; simp [upd]; grind
+    case r_vis => exact h.r_vis
+    case r_before => have := h.r_before; simp [upd]; grind
+    case r_in => have := h.r_in; simp [upd]; grind
+    case r_ord => exact h.r_ord
+    case r_res => have := h.r_res; simp [upd]; grind
+    case r_fin =>
+      have hres := h.r_res i p hpos; have hrp := h.r_pos i p hpos
+      have hhl := h.sm.head_live; have hhf := h.sm.head_first; have hls := h.sm.live_skip p
+      have hds := h.sm.dead_skip p; have hdl := h.sm.dead_le; have htot := h.sm.total
+      simp only [Seq.pub] at *
+      intro j hj
+      by_cases hji : j = i
+      · subst hji; simp [upd]
+        intro y hy0 hyp hyt hyl
+        by_cases hp0 : p = 0
+        · subst hp0; grind
+        · have := htot y p; grind
+      · simp [upd, hji] at hj ⊢; exact h.r_fin j hj
+    case r_init => exact h.r_init
+    case r_free => simp [upd, hsafe]; have := h.r_free; grind
+  · -- step to the next node
+    next p hpos hq =>
+    have hsafe := (h.pos_safe hpos).1
+    have k4 := h.clk_cs
+    have k5 := h.clk_gp
+    have k6 := h.tickT_lt
+    have k9 := h.pos_cs
+    have k10 := h.t0_le
+    have hhl := h.sm.head_live
+    have hrp := h.r_pos i p hpos
+    have hpp : s.m.pub p := by
+      by_cases hp0 : p = 0
+      · subst hp0; exact Or.inl hhl
+      · have := hrp hp0; simp only [Seq.pub]; grind
+    have hfw := h.sm.fwd p hpp hq
+    have hdom := h.sm.dom p (s.m.next p) hfw
+    have hln := h.sm.live_next p
+    have hdn := h.sm.dead_next p
+    have hbf := h.r_before i p hpos
+    have htr := h.sm.trans
+    simp only [Seq.pub] at hpp hdom
+    constructor
+    case su => exact h.su
+    case sm => exact h.sm
+    case link => exact h.link
+    case clk_cs => simp; grind
+    case clk_gp => simp; grind
+    case tickT_lt => simp; grind
+    case gp_cs => exact h.gp_cs
+    case freed_ok => exact h.freed_ok
+    case pos_cs => simp [upd]; grind
+    case t0_le => exact h.t0_le
+    case r_tick => have := h.r_tick; simp [upd]; grind
+    case r_pos => have := h.r_pos; simp [upd]; grind
+    case r_vis => have := h.r_vis; simp [upd, Seq.pub] at *; grind
+    case r_before => have := h.r_before; simp [upd]; grind
+    case r_in => have := h.r_in; simp [upd]; grind
+    case r_ord =>
+      intro j; by_cases hj : j = i
+      · subst hj; simp [upd, List.pairwise_append]
+        refine ⟨h.r_ord j, ?_⟩
+        intro a ha; have := hbf a ha; grind
+      · simp [upd, hj]; exact h.r_ord j
+    case r_res =>
+      have hres := h.r_res; have hin := h.r_in i p hpos
+      have hhf := h.sm.head_first; have hls := h.sm.live_skip p
+      have hds := h.sm.dead_skip p; have hdl := h.sm.dead_le; have htot := h.sm.total; have hirr := h.sm.irr
+      simp [upd, Seq.pub] at *
+      intro j q' hjq y hy0 hyl hyt hq0 hyq
+      by_cases hj : j = i
+      · subst hj; simp at hjq; subst hjq; simp
+        by_cases hyq' : y = s.m.next p
+        · exact Or.inr hyq'
+        · left
+          by_cases hp0 : p = 0
+          · subst hp0; grind
+          · have := htot y p; have := hres j p hpos y; grind
+      · simp [hj] at hjq ⊢; exact hres j q' hjq y hy0 hyl hyt hq0 hyq
+    case r_fin => have := h.r_fin; simp [upd]; grind
+    case r_init => exact h.r_init
+    case r_free => simp [upd, hsafe]; have := h.r_free; grind
+
+
+theorem inv_step (c : Cfg) (hb : c.bug = .none) {s s' : State} {l : Label} (h : Inv c s)
+    (st : step c s l = some s') : Inv c s' := by
+  cases l with
+  | u l => exact inv_u c hb h l st
+  | flush => exact inv_flush c hb h st
+  | rLock i => exact inv_rLock c h i st
+  | rUnlock i => exact inv_rUnlock c h i st
+  | rStart i => exact inv_rStart c h i st
+  | rNext i => exact inv_rNext c h i st
+  | rRead i => exact inv_rRead c h i st
+  | gpStart => exact inv_gpStart c h st
+  | gpEnd => exact inv_gpEnd c h st
+  | free x => exact inv_free c h x st
+
+theorem inv_reach (c : Cfg) (hb : c.bug = .none) {s : State} (h : Reach c s) : Inv c s := by
+  induction h with
+  | init => exact inv_init c
+  | step _ st ih => exact inv_step c hb ih st
 
 end UrcuVerif.RcuList
